@@ -25,6 +25,7 @@ type arithStream struct{ baseStream }
 func init() { register(arithStream{}) }
 
 func (arithStream) Name() string    { return "arith" }
+func (arithStream) Parallel() bool  { return true } // no shared state: cases run on all cores
 func (arithStream) Props() []string { return []string{"C03"} }
 
 func rawFor(r *rand.Rand, size int) uint64 {
@@ -214,7 +215,7 @@ func (arithStream) Tag(lines, outs []string) (bool, []string) {
 
 type arithExec struct{ fs []Finding }
 
-func (arithStream) NewExec() Exec       { return &arithExec{} }
+func (arithStream) NewExec() Exec        { return &arithExec{} }
 func (e *arithExec) Findings() []Finding { return e.fs }
 func (e *arithExec) fail(sig, d string) {
 	if len(e.fs) < 5 {
